@@ -140,6 +140,36 @@ Next ==
   \/ DoNew
 Spec == Init /\ [][Next]_vars
 
+(* ---------------- random walks for the replay on the real code: ONE successor per step (first the kind of call,
+   then its arguments, uniformly among the enabled ones), so that EmitInv prints exactly the walk *)
+CallsOf(o) ==
+  CASE o = "get" -> {[op |-> o, t |-> t, a |-> k, b |-> fl, c |-> 0] : t \in Threads, k \in Keys, fl \in 0..7}
+    [] o = "add" -> {[op |-> o, t |-> t, a |-> e, b |-> fl, c |-> za] : t \in Threads, e \in Ents, fl \in 0..3, za \in Zones \cup {NoZone}}
+    [] o \in {"rm", "elock", "eunlock"} -> {[op |-> o, t |-> t, a |-> e, b |-> 0, c |-> 0] : t \in Threads, e \in Ents}
+    [] o \in {"zlock", "zunlock"} -> {[op |-> o, t |-> t, a |-> z, b |-> 0, c |-> 0] : t \in Threads, z \in Zones}
+    [] o = "zenum" -> {[op |-> o, t |-> t, a |-> z, b |-> rm, c |-> st] : t \in Threads, z \in Zones, rm \in EnumRm, st \in Ents \cup {None}}
+    [] o = "enum" -> {[op |-> o, t |-> t, a |-> 0, b |-> rm, c |-> st] : t \in Threads, rm \in EnumRm, st \in Ents \cup {None}}
+    [] o = "destroy" -> {[op |-> o, t |-> t, a |-> 0, b |-> 0, c |-> 0] : t \in Threads}
+    [] o = "new" -> {[op |-> o, t |-> 1, a |-> 0, b |-> 0, c |-> 0]}
+Do(c) ==
+  CASE c.op = "get" -> DoGet(c.t, c.a, c.b)
+    [] c.op = "add" -> DoAdd(c.t, c.a, c.b, c.c)
+    [] c.op = "rm" -> DoRm(c.t, c.a)
+    [] c.op = "zlock" -> DoZLock(c.t, c.a)
+    [] c.op = "zunlock" -> DoZUnlock(c.t, c.a)
+    [] c.op = "elock" -> DoELock(c.t, c.a)
+    [] c.op = "eunlock" -> DoEUnlock(c.t, c.a)
+    [] c.op = "zenum" -> DoZEnum(c.t, c.a, c.b, c.c)
+    [] c.op = "enum" -> DoEnum(c.t, c.b, c.c)
+    [] c.op = "destroy" -> DoDestroy(c.t)
+    [] c.op = "new" -> DoNew
+OpNames == {"get", "add", "rm", "zlock", "zunlock", "elock", "eunlock", "zenum", "enum", "destroy", "new"}
+EnabledCalls(o) == {c \in CallsOf(o) : ENABLED Do(c)}
+SimNext ==
+  \E o \in {RandomElement({x \in OpNames : EnabledCalls(x) # {}})} :
+    \E c \in {RandomElement(EnabledCalls(o))} : Do(c)
+SimSpec == Init /\ [][SimNext]_vars
+
 (* ---------------- invariants *)
 Inv == hb.alive => /\ StructOK(hb) /\ CountsOK(hb) /\ NonNeg(hb) /\ LocksOK(hb)
                    /\ RangeOf(order) = InTable(hb) /\ Len(order) = Cardinality(InTable(hb))
